@@ -1,1 +1,100 @@
-//! Reference models, written independently of rsass.
+//! Reference models, written independently of rsass (CSS Values and Units 4,
+//! Sass documentation).  Nothing here calls into rsass except to *construct*
+//! the `Unit` enum values that are handed to the code under test.
+use rsass::value::Unit;
+
+/// Number of unit indices: 28 named units, unitless, two unknown units.
+pub const N_UNITS: u8 = 31;
+pub const IDX_NONE: u8 = 28;
+
+/// Index -> unit under test.
+pub fn unit(i: u8) -> Unit {
+    match i {
+        0 => Unit::Em,
+        1 => Unit::Ex,
+        2 => Unit::Ch,
+        3 => Unit::Rem,
+        4 => Unit::Vw,
+        5 => Unit::Vh,
+        6 => Unit::Vmin,
+        7 => Unit::Vmax,
+        8 => Unit::Cm,
+        9 => Unit::Mm,
+        10 => Unit::Q,
+        11 => Unit::In,
+        12 => Unit::Pt,
+        13 => Unit::Pc,
+        14 => Unit::Px,
+        15 => Unit::Deg,
+        16 => Unit::Grad,
+        17 => Unit::Rad,
+        18 => Unit::Turn,
+        19 => Unit::S,
+        20 => Unit::Ms,
+        21 => Unit::Hz,
+        22 => Unit::Khz,
+        23 => Unit::Dpi,
+        24 => Unit::Dpcm,
+        25 => Unit::Dppx,
+        26 => Unit::Percent,
+        27 => Unit::Fr,
+        28 => Unit::None,
+        29 => Unit::Unknown(String::from("x")),
+        _ => Unit::Unknown(String::from("y")),
+    }
+}
+
+/// CSS groups of mutually convertible units (0 = not convertible to
+/// anything but itself).
+pub fn group(i: u8) -> u8 {
+    match i {
+        8..=14 => 1,  // absolute lengths
+        15..=18 => 2, // angles
+        19..=20 => 3, // times
+        21..=22 => 4, // frequencies
+        23..=25 => 5, // resolutions
+        _ => 0,
+    }
+}
+
+/// How many canonical units (px, deg, s, Hz, dppx) one of this unit is,
+/// per CSS Values and Units 4.
+pub fn canonical(i: u8) -> f64 {
+    match i {
+        8 => 96.0 / 2.54,    // cm
+        9 => 96.0 / 25.4,    // mm
+        10 => 96.0 / 101.6,  // Q
+        11 => 96.0,          // in
+        12 => 96.0 / 72.0,   // pt
+        13 => 16.0,          // pc
+        14 => 1.0,           // px
+        15 => 1.0,           // deg
+        16 => 0.9,           // grad
+        17 => 180.0 / std::f64::consts::PI, // rad
+        18 => 360.0,         // turn
+        19 => 1.0,           // s
+        20 => 0.001,         // ms
+        21 => 1.0,           // Hz
+        22 => 1000.0,        // kHz
+        23 => 1.0 / 96.0,    // dpi
+        24 => 2.54 / 96.0,   // dpcm
+        25 => 1.0,           // dppx
+        _ => 1.0,
+    }
+}
+
+/// The regions of the recorded C11 finding: unit pairs that rsass converts
+/// with invented ratios although CSS fixes none.
+pub fn c11_invented_ratio_pair(i: u8, j: u8) -> bool {
+    let em = |k: u8| k <= 2; // em, ex, ch
+    let vx = |k: u8| k == 6 || k == 7; // vmin, vmax
+    let nn = |k: u8| (26..=28).contains(&k); // %, fr, unitless
+    i != j && ((em(i) && em(j)) || (vx(i) && vx(j)) || (nn(i) && nn(j)))
+}
+
+/// |a - b| <= rel * max(|a|, |b|)
+pub fn close(a: f64, b: f64, rel: f64) -> bool {
+    let d = (a - b).abs();
+    let m = if a.abs() > b.abs() { a.abs() } else { b.abs() };
+    d <= rel * m
+}
